@@ -798,7 +798,12 @@ func (e *NegationExpression) Evaluate(ctx *Context, input system.Collection) (sy
 	// handle negation of value
 	switch v := primitive.(type) {
 	case system.Integer:
-		return system.Collection{system.Integer(-1) * v}, nil
+		negated, err := system.Integer(-1).Mul(v)
+		if err != nil {
+			// -(-2147483648) does not fit an Integer: overflow results in empty
+			return system.Collection{}, nil
+		}
+		return system.Collection{negated}, nil
 	case system.Decimal:
 		negative := system.Decimal(decimal.NewFromInt(-1))
 		return system.Collection{v.Mul(negative)}, nil
